@@ -79,9 +79,9 @@ ASSUMPTIONS_C18 = [
 def check_c12(tier, seed, t0):
     from . import drive_fund
     prop = "C12"
-    models = [] if os.environ.get("VERIF_TRACES_ONLY") == "1" else table_models([("MC_PamsFundamentals", "MC_PamsFundamentals.cfg")])
+    models = [] if os.environ.get("VERIF_TRACES_ONLY") == "1" else table_models([("MC_PamsFundamentals", "MC_PamsFundamentals.cfg"), ("MC_PamsFundamentals_late", "MC_PamsFundamentals_late.cfg")])
     lines = drive_fund.all_lines(tier, seed)
-    keep = ("mode", "chunk", "ev", "cs")
+    keep = ("mode", "chunk", "ev", "cs", "starts")
     path = os.path.join(WORK, "TraceFund-%d.ndjson" % os.getpid())
     with open(path, "w") as f:
         for d in lines:
